@@ -137,24 +137,31 @@ Definition C05_through_forked_burst : Prop :=
       (* the own branch is the chain up to the junction followed by the undone path, oldest first *)
       (exists lo xj hi, sg = lo ++ xj :: hi /\ sid xj = j /\ csg = lo ++ xj :: rev path).
 
-(* ... and where that burst leads a consumer that holds nothing, for a start block at or below the block
-   after the cursor LIB: to the hub's chain from `start` on, final up to the hub LIB *)
+(* ... and where that burst leads a consumer that holds nothing, for every start block at or below the
+   block after the junction.  Finality announcements (Irreversible) for blocks below `start` concern
+   blocks this consumer never received and are set aside (`tolerate`, the tolerance of the boolean
+   property Check/Burst_Check.c05_answer_ok); there are none when start is at or below the block after
+   the cursor LIB.  The consumer ends on the hub's chain from `start` on. *)
+Definition tolerate (start : N) (evs : list event) : list event :=
+  filter (fun e => negb (step_eqb (estep e) SIrr && (bnum (eblk e) <? start))) evs.
+
 Definition C05_through_forked_consumer : Prop :=
-  forall s hd sg start c csg path j evs,
+  forall s hd sg start c csg path j je evs,
     wf_state s -> head_chain s hd sg -> starts_within sg start ->
     block_in (ri (cu_blk c)) sg = false -> cursor_numbered (db s) c ->
     complete_segment (db s) (cu_blk c) = Some (csg, true) ->
-    starts_within csg start -> start <= rn (cu_blk c) ->
+    starts_within csg start ->
     (exists x, In x sg /\ sid x = ri (cu_lib c) /\ snum x = rn (cu_lib c)) ->
-    branch_to (db s) sg (ri (cu_blk c)) path j ->
-    start <= rn (cu_lib c) + 1 ->
+    branch_to (db s) sg (ri (cu_blk c)) path j -> find j (store (db s)) = Some je ->
+    rn (cu_lib c) <= bnum (eb je) ->                   (* the cursor LIB is not above the junction *)
+    start <= bnum (eb je) + 1 ->                       (* start at or below the block after the junction *)
     blocks_through_cursor s start c = BOk evs ->
     let kept := filter (from_start start) sg in
-    let nfin := length (filter (final_now s) kept) in
-    let nheld := length (filter (final_cur c) kept) in
-    cons_fold cons0 evs =
-      Some (mkCons (rev (map seg_blk kept)) (nheld + length (filter (final_now s) (above_seg c sg)))
-                   (negb (Nat.eqb nheld 0) || negb (Nat.eqb (length (filter (final_now s) (above_seg c sg))) 0))).
+    let nfinal := length (filter (fun x => final_cur c x || final_now s x) kept) in
+    cons_fold cons0 (tolerate start evs) = Some (mkCons (rev (map seg_blk kept)) nfinal (negb (Nat.eqb nfinal 0))) /\
+    (start <= rn (cu_lib c) + 1 -> tolerate start evs = evs) /\
+    (* with a cursor LIB not above the hub LIB: exactly the blocks up to the hub LIB final *)
+    (rn (cu_lib c) <= rn (libref (db s)) -> nfinal = length (filter (final_now s) kept)).
 
 (* ------------------------------------------------------------------ 3. hub.SourceThroughCursor *)
 
